@@ -70,3 +70,72 @@ pub fn reference_fields(g: &mut Gen, st: &mut Stats) -> CaseResult {
     st.class(&format!("reference-fields/{} of 4 optionals present", (mask as u32).count_ones()));
     match g.below(4) { 0 => arr::check(&own!(arr), st), 1 => arr2::check(&own!(arr2), st), 2 => map::check(&own!(map), st), _ => tagged::check(&own!(tagged), st) }
 }
+
+// ---- indices at the top of the u32 range ----------------------------------------------------------------------------------
+// `#[n(4294967295)]` is a legal index. Under map encoding it is an ordinary key; under array encoding a present field at that
+// index means a header of 2^32 elements followed by as many nulls - nothing one would build in memory, but the header and
+// the first bytes are observable through a bounded sink, and the length is plain arithmetic.
+
+pub mod extreme {
+    use super::*;
+    use minicbor::Decode;
+    #[derive(Debug, Clone, PartialEq, Encode, Decode, CborLen)]
+    pub struct XA { #[n(0)] pub a: u8, #[n(4294967295)] pub z: Option<u8> }
+    #[derive(Debug, Clone, PartialEq, Encode, Decode, CborLen)] #[cbor(map)]
+    pub struct XM { #[n(0)] pub a: u8, #[n(4294967295)] pub z: Option<u8>, #[n(4294967294)] pub y: Option<u16> }
+    #[derive(Debug, Clone, PartialEq, Encode, Decode, CborLen)]
+    pub enum XE { #[n(4294967295)] Last, #[n(4294967294)] #[cbor(map)] M { #[n(4294967295)] z: Option<u8>, #[n(1)] q: u8 }, #[n(0)] V(#[n(0)] u8, #[n(4294967295)] Option<u8>) }
+    #[derive(Debug, Clone, Copy, PartialEq, Encode, Decode, CborLen)] #[cbor(index_only)]
+    pub enum XI { #[n(4294967295)] Top, #[n(0)] Zero, #[n(4294967294)] Sub }
+
+    fn rt<T: Encode<()> + for<'b> Decode<'b, ()> + CborLen<()> + PartialEq + std::fmt::Debug>(v: &T, want: &[u8]) -> CaseResult {
+        let got = minicbor::to_vec(v).map_err(|e| vcore::Fail::new("encode", e.to_string()))?;
+        ensure!(got == want, "extreme-index-bytes", "{:?} encodes as {}, the documented format gives {}", v, vcore::item::hex(&got), vcore::item::hex(want));
+        ensure!(minicbor::len(v) == got.len(), "extreme-index-len", "{:?}: len {} but {} bytes are written", v, minicbor::len(v), got.len());
+        match minicbor::decode::<T>(&got) { Ok(b) => ensure!(&b == v, "extreme-index-roundtrip", "{:?} encoded as {} decodes as {:?}", v, vcore::item::hex(&got), b), Err(e) => return Err(vcore::Fail::new("extreme-index-roundtrip", format!("{:?} encoded as {} is rejected: {}", v, vcore::item::hex(&got), e))) }
+        Ok(())
+    }
+
+    /// A present field at array index 2^32-1: header + the first fields + nulls, as far as a small sink takes them.
+    fn bounded<T: Encode<()> + CborLen<()> + std::fmt::Debug>(v: &T, prefix: &[u8], total: u64) -> CaseResult {
+        let mut buf = [0xeeu8; 48];
+        let r = minicbor::encode(v, &mut buf[..]);
+        match r { Err(e) => ensure!(e.is_write(), "extreme-index-error", "{:?} into a 48-byte slice failed with `{}`, not with a write error", v, e), Ok(()) => return Err(vcore::Fail::new("extreme-index-fits", format!("{:?} was encoded into 48 bytes: {}", v, vcore::item::hex(&buf)))) }
+        let mut want = prefix.to_vec();
+        want.resize(48, 0xf6);
+        ensure!(buf[..] == want[..], "extreme-index-bytes", "{:?}: the first 48 bytes written are {}, the documented format starts {}", v, vcore::item::hex(&buf), vcore::item::hex(&want));
+        let l = minicbor::len(v) as u64;
+        ensure!(l == total, "extreme-index-len", "{:?}: len = {}, the encoding has {} bytes (header 9, fields, 2^32 - 2 nulls)", v, l, total);
+        Ok(())
+    }
+
+    pub fn extreme_indices(g: &mut Gen, st: &mut Stats) -> CaseResult {
+        st.eval();
+        let a = g.byte() % 24; let z = g.byte() % 24; let y = (g.byte() % 24) as u16;
+        const TOP: [u8; 5] = [0x1a, 0xff, 0xff, 0xff, 0xff];
+        const SUB: [u8; 5] = [0x1a, 0xff, 0xff, 0xff, 0xfe];
+        let cat = |parts: &[&[u8]]| -> Vec<u8> { parts.iter().flat_map(|p| p.iter().copied()).collect() };
+        match g.below(10) {
+            0 => rt(&XA { a, z: None }, &[0x81, a])?,
+            1 => bounded(&XA { a, z: Some(z) }, &cat(&[&[0x9b, 0, 0, 0, 1, 0, 0, 0, 0], &[a]]), 9 + 1 + ((1u64 << 32) - 2) + 1)?,
+            2 => rt(&XM { a, z: Some(z), y: None }, &cat(&[&[0xa2, 0x00, a], &TOP, &[z]]))?,
+            3 => rt(&XM { a, z: Some(z), y: Some(y) }, &cat(&[&[0xa3, 0x00, a], &SUB, &[y as u8], &TOP, &[z]]))?,
+            4 => rt(&XM { a, z: None, y: None }, &[0xa1, 0x00, a])?,
+            5 => rt(&XE::Last, &cat(&[&[0x82], &TOP, &[0x80]]))?,
+            6 => rt(&XE::M { z: Some(z), q: a }, &cat(&[&[0x82], &SUB, &[0xa2, 0x01, a], &TOP, &[z]]))?,
+            7 => { rt(&XE::V(a, None), &[0x82, 0x00, 0x81, a])?; bounded(&XE::V(a, Some(z)), &cat(&[&[0x82, 0x00, 0x9b, 0, 0, 0, 1, 0, 0, 0, 0], &[a]]), 2 + 9 + 1 + ((1u64 << 32) - 2) + 1)? }
+            8 => { rt(&XI::Top, &TOP)?; rt(&XI::Sub, &SUB)?; rt(&XI::Zero, &[0x00])? }
+            _ => {
+                // the reader's side: an index beyond the u32 range is no variant (how a key beyond the range is treated in a map is
+                // not documented - indices are u32 by definition - and is not judged)
+                let r = minicbor::decode::<XI>(&[0x1b, 0, 0, 0, 1, 0, 0, 0, 0]);
+                ensure!(r.is_err(), "extreme-index-decode", "variant index 2^32 decoded as {:?}", r);
+                let r = minicbor::decode::<XI>(&[0x1b, 0, 0, 0, 1, 0xff, 0xff, 0xff, 0xff]);
+                ensure!(r.is_err(), "extreme-index-decode", "variant index 2^33 - 1 decoded as {:?}", r);
+            }
+        }
+        st.nontrivial(hash_of(&(a, z, y)));
+        st.class("extreme-indices");
+        Ok(())
+    }
+}
